@@ -8,7 +8,7 @@ BOUNDS = {
     "quick": "DilutionPlan(xmin, xmax, R, C, stock, mode='linear', vmax, min_transfer) with xmin, xmax, min_transfer symbolic reals (0 < xmin < xmax <= stock, "
              "1 <= min_transfer <= vmax), (R, C) in {(1,2), (1,3), (1,4), (2,2)}, vmax in {6, (6,8,..) per column, (8,2,8,..) with a small middle column}, stock in {1, 2.5}; the integer results of round/ceil "
              "are concretised (0..vmax+2), so every path is one concrete plan and the solver decides the region of (xmin, xmax, min_transfer) that yields it; "
-             "each plan is then executed with to_worklist on large labware in four variants (both devices, worklist max_volume 1000 and 4 (splitting), always-mix, destination plate); mode='log' and invalid modes as concrete cases",
+             "each plan is then executed with to_worklist on large labware in five variants (both devices, worklist max_volume 1000 and 4 (splitting), always-mix, destination plate, stock and diluent as two columns of one trough); mode='log' and invalid modes as concrete cases",
     "thorough": "(R, C) up to (2,3) and (1,5), vmax in {6, 10}, worklist max_volume below vmax (splitting), destination plate, mixing parameters",
 }
 OUTSIDE = "R > 2, C > 4, vmax > 10; log mode with symbolic limits (numpy.exp/log are C code: only concrete representatives are executed); float rounding inside numpy.round/ceil"
@@ -218,24 +218,31 @@ def execute(ctx, ns, plan, R, C, tag):
     vmax = as_list(plan.vmax)
     variants = [("evo", 1000, False, {}), ("fluent", 1000, False, {}),
                 ("evo", 4, False, dict(mix_threshold=0.0, mix_repeat=1, mix_volume=0.5)),        # worklist max_volume below vmax: split steps; always mix
-                ("fluent", 1000, True, dict(mix_repeat=3, mix_wash="flush"))]                     # with a destination plate
+                ("fluent", 1000, True, dict(mix_repeat=3, mix_wash="flush")),                     # with a destination plate
+                ("evo", 1000, "one-reservoir", {})]   # stock and diluent are two columns of ONE trough
     # what every column keeps after serving the later columns (a destination transfer needs something left)
     left = list(vmax)
     for col, d, src, v in plan.instructions:
         if src != "stock":
             left[src] -= max(as_list(v))
     for dev, wl_max, with_dest, kw in variants:
+        one_res = with_dest == "one-reservoir"
+        with_dest = with_dest is True
         if with_dest and min(left) < 0.5:
             continue   # a fully consumed column cannot feed a destination plate: that is the user's choice of v_destination, not the plan's fault
         stock = ns.Trough("stock", 2, 1, min_volume=0, max_volume=1e7, initial_volumes=1e6)
         diluent = ns.Trough("diluent", 3, 2, min_volume=0, max_volume=1e7, initial_volumes=[0, 1e6])
+        skw = {}
+        if one_res:
+            stock = diluent = ns.Trough("reservoir", 3, 2, min_volume=0, max_volume=1e7, initial_volumes=[1e6, 1e6], column_names=["stock", "diluent"])
+            skw = dict(stock_column=0)
         plate = ns.Labware("dil", max(R, 2), C + 1, min_volume=0, max_volume=1e5)
         dest = ns.Labware("dest", max(R, 2), C, min_volume=0, max_volume=1e5) if with_dest else None
         wl = common.make_worklist(ctx, dev, wl_max)
         if with_dest:
             kw = dict(kw, destination_plate=dest, v_destination=0.5)
         try:
-            plan.to_worklist(worklist=wl, stock=stock, diluent=diluent, diluent_column=1, dilution_plate=plate, **kw)
+            plan.to_worklist(worklist=wl, stock=stock, diluent=diluent, diluent_column=1, dilution_plate=plate, **skw, **kw)
         except Exception as ex:  # noqa: BLE001
             ctx.violate("C14: the plan cannot be executed as planned", info=f"{dev} max_volume={wl_max} dest={with_dest}: {type(ex).__name__}: {ex}; instructions={[(a, b, s, as_list(v)) for a, b, s, v in plan.instructions]}")
             return
